@@ -41,7 +41,7 @@ if ! echo "$out" | grep -q "^ok\|^--- PASS\|^--- FAIL\|^FAIL"; then
   rc=2
 fi
 ev="$verif/evidence/$prop.json"
-if [ -f "$ev" ]; then
+if [ -f "$ev" ] && [ -z "${STANDIN_NO_EVIDENCE:-}" ]; then
   tmp=$(mktemp /var/tmp/verif-ev.XXXXXX)
   jq --arg lines "$lines" --arg rc "$rc" '.coverage.bounded_standin_runs = {"label":"bounded (stated bound per line; not counted among obligations or discharged)","passed": ($rc=="0"), "runs": ($lines | split("\n") | map(select(length>0)))}' "$ev" > "$tmp" && cat "$tmp" > "$ev"
   rm -f "$tmp"
